@@ -33,7 +33,7 @@ def make_dag(seed, ncells, exotic):
             c = RCell(_rbits(rng, nb), [])
         if exotic and cells and rng.random() < 0.25:
             try:
-                kind = rng.choice(['proof', 'proof', 'library', 'update', 'nested'])
+                kind = rng.choice(['proof', 'proof', 'library', 'update', 'nested', 'nested3'])
                 tgt = rng.choice(cells)
                 if kind == 'library':
                     c = RCell('1', (library_ref_of(tgt.hash),))
@@ -44,6 +44,13 @@ def make_dag(seed, ncells, exotic):
                     y = RCell('0110', (pruned_of(tgt, 2), pruned_of(pruned_of(c, 1), 2)))     # mask 3
                     inner = merkle_proof_of(y)                                                # mask 1
                     c = merkle_proof_of(RCell('10', (inner, pruned_of(tgt, 1))))              # mask 0
+                elif kind == 'nested3' and tgt.mask == 0 and c.mask == 0:
+                    # three Merkle levels: pruned cells of every mask that has level 3 (0b100, 0b101, 0b110 - gaps - and 0b111)
+                    ps = [pruned_of(RCell('1', (pruned_of(tgt, 2),)), 3), pruned_of(RCell('0', (pruned_of(c, 1),)), 3), pruned_of(tgt, 3),
+                          pruned_of(RCell('', (pruned_of(pruned_of(c, 1), 2),)), 3)]
+                    rng.shuffle(ps)
+                    z = RCell('0110', ps[:rng.choice([1, 2, 4])])
+                    c = merkle_proof_of(RCell('10', (merkle_proof_of(RCell('1', (merkle_proof_of(z),))),)))
                 elif tgt.mask == 0:
                     c = merkle_proof_of(RCell('01', (pruned_of(tgt, 1),) + ((c,) if c.mask == 0 else ())))
             except RCellError:
